@@ -23,6 +23,11 @@ Theorem hash_anti_eq_nested_loop : forall cond lk rk nl nr L R,
   equi_cond cond lk rk (concat L) (concat R) ->
   Some (x_hashjoin JAnti lk rk nl nr L R) = x_nljoin JAnti cond nr L R.
 Proof. exact hashjoin_anti_eq_nljoin. Qed.
+(** the hash semi / anti join with a residual condition = the nested-loop one on (key equality AND condition) *)
+Theorem hash_semi_anti_with_residual_eq_nested_loop : forall anti eqc cond lk rk nr L R,
+  equi_cond eqc lk rk (concat L) (concat R) ->
+  Some (x_hashsemi2 anti lk rk cond L R) = x_nljoin (if anti then JAnti else JSemi) (SAnd eqc cond) nr L R.
+Proof. exact hashsemi2_eq_nljoin. Qed.
 Theorem joins_independent_of_chunking : forall t lk rk cond nl nr L L' R R',
   concat L = concat L' -> concat R = concat R' ->
   x_hashjoin t lk rk nl nr L R = x_hashjoin t lk rk nl nr L' R' /\
@@ -114,6 +119,7 @@ Print Assumptions hash_inner_eq_nested_loop.
 Print Assumptions hash_left_eq_nested_loop.
 Print Assumptions hash_semi_eq_nested_loop.
 Print Assumptions hash_anti_eq_nested_loop.
+Print Assumptions hash_semi_anti_with_residual_eq_nested_loop.
 Print Assumptions joins_independent_of_chunking.
 Print Assumptions merge_inner_eq_hash.
 Print Assumptions merge_inner_eq_nested_loop.
